@@ -18,7 +18,9 @@ RULE = ("A case is a history over one fake node reached through the real Session
         "(rows/void/errors with scripted retries/undecodable/.../close/reset), advance the clock (client timeouts "
         "orphan streams past the threshold; the next borrow submits the replacement task), connect delay 0/0.2/0.6/3 s "
         "and refused connects (the replacement finishes later / fails and is retried), kill a connection, plus a "
-        "schedule tape.  Non-trivial: a connection reached its orphan threshold while at least one of its requests "
+        "schedule tape; the 'trashfail' part builds the replacement by construction (timeouts past the threshold next to "
+        "live requests, new requests on the fresh connection) and then fails / answers / times out the old connection.  "
+        "Non-trivial: a connection reached its orphan threshold while at least one of its requests "
         "was neither answered nor timed out, and a replacement connection was opened.  Distinct by case digest.")
 ASSUMPTIONS = ["network, clock, executor and event loop are simulated (sim/); Cluster, Session, pools, connections, "
                "ResponseFuture, policies are the real classes",
@@ -195,10 +197,38 @@ def s_case(gran):
     return SP.s_case(st, "c13", gran, [3, 4, 4, 5], mifs=(3, 4, 4, 5, 8), thrs=(1, 1, 2, 2, 3))
 
 
+def s_trashfail():
+    """a replaced connection that is still serving a live request fails (or is answered, or times out) while the
+    fresh connection already carries requests of its own that will time out too"""
+    tail = st.one_of(
+        st.tuples(st.just("send"), st.sampled_from([0, 0, 3, 1])),
+        st.tuples(st.just("answer"), st.integers(0, 7), st.sampled_from(["rows", "rows", "void", "overloaded"])),
+        st.tuples(st.just("advance"), st.sampled_from([0.35, 0.35, 0.75, 1.1, 2.5])),
+        st.tuples(st.just("kill"), st.integers(0, 2), st.sampled_from(["close", "reset"])),
+    )
+
+    @st.composite
+    def build(draw):
+        case = draw(SP.s_case(st, "c13", "blocking", [3, 4, 4, 5], mifs=(5, 8), thrs=(1, 1, 2),
+                              extra={"events": st.just([]), "delay": st.sampled_from([0.0, 0.0, 0.2])}))
+        thr = case["thr"]
+        ev = [["send", 0]] * draw(st.integers(thr, thr + 1)) + [["send", 3]] * draw(st.integers(1, 2))
+        ev += [["advance", 0.35]]                                      # orphans past the threshold, live ones remain
+        ev += [["send", draw(st.sampled_from([0, 0, 1, 3]))] for _ in range(draw(st.integers(1, thr + 2)))]  # replacement
+        ev += [draw(st.sampled_from([["kill", 0, "reset"], ["kill", 0, "close"], ["answer", 0, "rows"],
+                                     ["answer", 1, "rows"], ["advance", 0.35]]))]
+        ev += [["advance", draw(st.sampled_from([0.35, 0.35, 1.1]))]]
+        ev += [list(e) for e in draw(st.lists(tail, max_size=8))]
+        case["events"] = ev
+        return case
+    return build()
+
+
 def parts(tier):
     return [
         hyp_part("blocking", lambda: s_case("blocking"), interpret, tier, quick=130, thorough=1500,
                  quick_shards=6, thorough_shards=12),
+        hyp_part("trashfail", s_trashfail, interpret, tier, quick=100, thorough=1000, quick_shards=1, thorough_shards=2),
         hyp_part("locks", lambda: s_case("locks"), interpret, tier, quick=60, thorough=700,
                  quick_shards=2, thorough_shards=4),
     ]
